@@ -41,14 +41,19 @@ try_get_by_name = Fn(F, "try_get_by_name", impl=IMPL, impl_header=IMPL, slot="ut
     ],
     sig_rewrites=[Rewrite("where S: std::borrow::Borrow<str> + std::fmt::Debug", "where S: std::borrow::Borrow<str>", rule="R1", why="Debug bound dropped (no Debug specs in the verified set)")])
 
+get_mut = Fn(F, "get_mut", impl=IMPL, impl_header=IMPL, slot="util", ret="res", key="SymbolManager::get_mut", props=["C03"],
+    requires=[C("exists", "item_ref.0 < old(self).decls@.len()", ["C03"])],
+    ensures=[C("decl", "*res == old(self).decls@[item_ref.0 as int]", ["C15"]),
+             C("frame", "final(self).decls@ == old(self).decls@.update(item_ref.0 as int, *final(res)) && final(self).globals == old(self).globals && final(self).report_as == old(self).report_as", ["C15"])])
+
 PARENT = "old(self).spec_parent(None, texts(ctx.hierarchy@.subrange(0, hierarchy_level as int)))"
-get_children_mut = Fn(F, "get_children_mut", impl=IMPL, impl_header=IMPL, slot="util", mode="stub", ret="res", key="SymbolManager::get_children_mut",
+get_children_mut = Fn(F, "get_children_mut", impl=IMPL, impl_header=IMPL, slot="util", mode="verify", ret="res", key="SymbolManager::get_children_mut",
     requires=[C("ref_ok", "old(self).ref_ok(parent_ref)")],
     ensures=[
         C("is_the_children_map", "*res == *old(self).children_of(parent_ref)"),
         C("frame", "(match parent_ref { None => final(self).globals == *final(res) && final(self).decls@ == old(self).decls@,"
                    " Some(p) => final(self).globals == old(self).globals && final(self).decls@.len() == old(self).decls@.len()"
-                   " && final(self).decls@[p.0 as int].children == *final(res)"
+                   " && final(self).decls@[p.0 as int] == (util::SymbolDecl { children: *final(res), ..old(self).decls@[p.0 as int] })"
                    " && (forall|i: int| 0 <= i < old(self).decls@.len() && i != p.0 ==> #[trigger] final(self).decls@[i] == old(self).decls@[i]) })"),
         C("report_as_kept", "final(self).report_as == old(self).report_as"),
     ])
@@ -67,6 +72,7 @@ declare = Fn(F, "declare", impl=IMPL, impl_header=IMPL, slot="util", ret="res", 
         C("other_scopes_untouched", "res is Ok ==> (forall|i: int, k: Seq<char>| 0 <= i < old(self).decls@.len() && !(%s is Some && (%s->0).0 == i) ==> #[trigger] spec_lookup(&final(self).decls@[i].children, k) == spec_lookup(&old(self).decls@[i].children, k))"
           " && (%s is Some ==> forall|k: Seq<char>| #[trigger] spec_lookup(&final(self).globals, k) == spec_lookup(&old(self).globals, k))" % (PARENT, PARENT, PARENT), ["C15"]),
         C("error_changes_nothing", "res is Err ==> final(self).decls@ == old(self).decls@ && final(self).globals == old(self).globals", ["C15"]),
+        C("earlier_declarations_kept", "forall|k: int| 0 <= k < old(self).decls@.len() && k < final(self).decls@.len() ==> (#[trigger] final(self).decls@[k]).ctx == old(self).decls@[k].ctx && final(self).decls@[k].depth == old(self).decls@[k].depth && final(self).decls@[k].name == old(self).decls@[k].name", ["C15"]),
         C("declaration_records_its_scope", "res is Ok ==> final(self).decls@[res->Ok_0.0 as int].depth == hierarchy_level && final(self).decls@[res->Ok_0.0 as int].ctx.hierarchy@ == ctx.hierarchy@.subrange(0, hierarchy_level as int).push(name)", ["C15"]),
     ],
     rewrites=[
@@ -87,7 +93,7 @@ UNIT = Unit(
         Type(F, "struct", "SymbolDecl", slot="util", attrs=["#[verifier::accept_recursive_types(T)]"]),
         Type(F, "enum", "SymbolKind", slot="util", derive="Clone, Copy"),
         Type(F, "struct", "SymbolContext", slot="util"),
-        get, get_children, traverse, get_parent, try_get_by_name, get_children_mut, declare,
+        get, get_children, traverse, get_parent, try_get_by_name, get_mut, get_children_mut, declare,
     ],
     serves=["C15", "C03"],
     description="util::SymbolManager lookups: dot-level rule and dotted-path descent",
